@@ -1178,7 +1178,7 @@ func TestZZVerifG04Walk(t *testing.T) {
 
 	nunits, tours, nrand := 3, 1, 1500
 	if zzG04Thorough() {
-		nunits, tours, nrand = len(zzG04UnitsOf), 3, 12000
+		nunits, tours, nrand = len(zzG04UnitsOf), 2, 8000
 	}
 
 	dir := t.TempDir()
@@ -1348,10 +1348,22 @@ func zzG04Trace(t *testing.T, w *zzWriter, k, steps int) {
 		line("reset", nil)
 		// The durations this history plays with.
 		base := []int64{1, 2, 5, 1000, 60000, 3600000, 86400000, 999999999}[rng.Intn(8)]
+		// Every other history keeps clear of the inputs that end a history at
+		// an open known finding (huge durations, the dns_config switch, a set
+		// call while a worker is held back), so that it is validated to its
+		// end.
+		calm := k%2 == 1
 		for i := 0; i < steps && nowMS() < 400000000; i++ {
 			pre, _ = cur()
 			lazy := rng.Intn(2) == 0
-			switch c := rng.Intn(100); {
+			c := rng.Intn(100)
+			if calm && c < 22 && sys.vpend {
+				c = 62
+			} else if calm && c >= 22 && c < 25 {
+				c = 30
+			}
+
+			switch {
 			case c < 22:
 				// POST /control/protection.
 				en := rng.Intn(4) == 0
@@ -1367,6 +1379,8 @@ func zzG04Trace(t *testing.T, w *zzWriter, k, steps int) {
 
 					ms = strconv.FormatInt(d, 10)
 				case x < 39:
+					dk, ms = "big", zzG04BigMS[rng.Intn(len(zzG04BigMS))]
+				case calm:
 					dk, ms = "big", zzG04BigMS[rng.Intn(len(zzG04BigMS))]
 				default:
 					dk, ms = "huge", zzG04HugeMS[rng.Intn(len(zzG04HugeMS))]
@@ -1443,6 +1457,11 @@ func zzG04Trace(t *testing.T, w *zzWriter, k, steps int) {
 					d = 1
 				}
 
+				// Keep every instant of the history below the horizon.
+				if d > 300000000 {
+					d = 300000000
+				}
+
 				time.Sleep(time.Duration(d) * time.Millisecond)
 				synctest.Wait()
 				line("tick", map[string]any{"d": d})
@@ -1458,7 +1477,7 @@ func TestZZVerifG04Trace(t *testing.T) {
 
 	ntr, steps := 300, 40
 	if zzG04Thorough() {
-		ntr, steps = 2500, 50
+		ntr, steps = 2000, 50
 	}
 
 	for _, k := range zzG04TraceSel(ntr) {
